@@ -83,3 +83,31 @@ def run_admon_via_markdown(text):
     from ford.md_admonition import AdmonitionExtension
     md = markdown.Markdown(extensions=[AdmonitionExtension()])
     return md.convert(text)
+
+
+def run_doc_project(files):
+    """Project + correlate + markdown (MetaMarkdown set up as in ford.main) on the rendered files.
+    Returns ('ok', {(obj, name, parent): dict(doc=html, text=visible text, summary=html, meta={...})})
+    or ('err', 'Type: message')."""
+    import bs4
+    from harness.impl import fordrun
+    from ford._markdown import MetaMarkdown
+    out = {}
+    with fordrun.Work(files) as w:
+        try:
+            p = fordrun.parse_project(w.root, display=["public", "private", "protected"], dbg=False)
+            md = MetaMarkdown(project=p)
+            with fordrun.quiet():
+                p.markdown(md)
+        except Exception as e:  # noqa
+            return "err", f"{type(e).__name__}: {e}"
+        for f in p.allfiles:
+            for it in f.markdownable_items:
+                par = getattr(it, "parent", None)
+                key = (getattr(it, "obj", None), (it.name or "").lower(),
+                       (getattr(par, "name", None) or "").lower() if par is not None and getattr(it, "obj", "") != "module" else None)
+                meta = {k: getattr(it.meta, k, None) for k in
+                        ("author", "version", "since", "category", "license", "date", "deprecated", "display")}
+                out[key] = dict(doc=it.doc, text=bs4.BeautifulSoup(it.doc or "", "html.parser").get_text(),
+                                summary=it.meta.summary, meta=meta, doc_list=list(it.doc_list))
+    return "ok", out
